@@ -104,6 +104,38 @@ AggMenu ==
         Agg(<<KeyK, ItE("key", V, "v"), CountStar>>, <<K, V>>, NoE, NoH, FALSE, NoLimit, "none"),
         Agg(<<ItE("key", V, "v"), CountStar>>, <<K>>, NoE, NoH, FALSE, NoLimit, "none")}       \* key expression not in GROUP BY: error
 
+\* C15: the listed order-insensitive aggregates over INT, TEXT and BOOLEAN arguments, with GROUP BY / WHERE / HAVING
+CombineStmt == Agg(<<KeyK, CountStar, CountV, SumV, MinOfV, MaxOfV>>, <<K>>, NoE, NoH, FALSE, NoLimit, "none")
+OrderMenu ==
+  {Agg(<<KeyK, x>>, <<K>>, NoE, NoH, FALSE, NoLimit, "none") : x \in AllAggs \ {ItE("array_agg", V, "aa"), [a |-> "string_agg", e |-> K, delim |-> Comma, as |-> "sa", wrap |-> NoE]}}
+  \cup {Agg(<<x>>, <<>>, VPos, NoH, FALSE, NoLimit, "none") : x \in {CountStar, SumV, MinK, MaxK, ItE("avg", V, "a"), ItC("count_distinct", "v", "d")}}
+  \cup {Agg(<<KeyK, SumV, MaxK>>, <<K>>, NoE, HAgg(CountStar, ">", IntV(1)), FALSE, NoLimit, "none"), CombineStmt,
+        Agg(<<ItE("sum", Lit(MaxV(0)), "big"), ItE("sum", V, "s")>>, <<>>, NoE, NoH, FALSE, NoLimit, "none")}
+
+\* C09 / C03: operators, functions, subscripts and casts on boundary values (64-bit extremes, zero divisors, NaN / infinities / -0.0)
+BInts == {MinV(0), MinV(1), IntV(-1), IntV(0), IntV(1), IntV(2), IntV(63), IntV(64), MaxV(-1), MaxV(0)}
+BReals == {RealV(3, 2), RealV(0, 1), NZero, NaN, PInf, NInf, RealV(-1, 4)}
+Arr78 == Lit(ArrV("int", <<IntV(7), IntV(8)>>))
+Digits19 == <<57, 50, 50, 51, 51, 55, 50, 48, 51, 54, 56, 53, 52, 55, 55, 53, 56, 48, 55>>
+ExprOnly(e) == Sel(<<P(e, "r")>>, NoE, FALSE, NoLimit, "none")
+BoundaryMenu ==
+  {ExprOnly(Arith(f, Lit(x), Lit(y))) : f \in {"+", "-", "*", "/"}, x \in BInts, y \in BInts}
+  \cup {ExprOnly(Arith(f, Lit(x), Lit(y))) : f \in {"+", "-", "*", "/"}, x \in BReals, y \in BReals}
+  \cup {ExprOnly(Arith(f, Lit(x), Lit(y))) : f \in {"+", "/"}, x \in {IntV(1), Null}, y \in {RealV(3, 2), Null, TextV(<<97>>), BoolV(TRUE)}}
+  \cup {ExprOnly(NegE(Lit(x))) : x \in BInts \cup BReals \cup {Null, TextV(<<97>>)}}
+  \cup {ExprOnly(Call("abs", <<Lit(x)>>)) : x \in BInts \cup BReals \cup {Null}}
+  \cup {ExprOnly(Idx(Arr78, Lit(i))) : i \in BInts \cup {IntV(3), Null, RealV(1, 1)}}
+  \cup {ExprOnly(Idx(Lit(x), Lit(IntV(1)))) : x \in {Null, IntV(5), TextV(<<97>>)}}
+  \cup {ExprOnly(Call(f, <<Lit(x), Lit(y)>>)) : f \in {"least", "greatest"}, x \in {MinV(0), IntV(0), MaxV(0), Null}, y \in {MinV(0), IntV(1), MaxV(0), RealV(1, 1)}}
+  \cup {ExprOnly(Cast(Lit(TextV(t_)), ty)) : t_ \in {Digits19, Append(Digits19, 48), <<45>> \o Digits19, <<49, 50>>, <<49, 46, 53>>, <<97>>, <<>>, <<116, 114, 117, 101>>}, ty \in {"int", "real", "boolean", "text"}}
+  \cup {ExprOnly(Cast(Lit(x), "text")) : x \in {IntV(-12), BoolV(FALSE), RealV(3, 2), RealV(-1, 4)}}
+  \cup {ExprOnly(CaseE(<<<<Lit(c), Lit(IntV(1))>>>>, Arith("/", One, Zero))) : c \in {BoolV(TRUE), BoolV(FALSE), Null}}
+  \cup {ExprOnly(BoolE(f, Lit(x), CmpE("=", Arith("/", One, Zero), One))) : f \in {"and", "or"}, x \in {BoolV(TRUE), BoolV(FALSE), Null}}
+  \cup {ExprOnly(InE(ng, Lit(x), <<Lit(y), Lit(z)>>)) : ng \in BOOLEAN, x \in {Null, IntV(1)}, y \in {Null, IntV(1), IntV(2)}, z \in {Null, IntV(2)}}
+  \cup {ExprOnly(Call(f, <<Lit(TextV(<<97, 201, 98>>))>>)) : f \in {"upper", "lower", "length"}}
+  \cup {ExprOnly(Call(f, <<Lit(TsV(<<2021, 3, 28, 2, 30, 59, 0>>))>>)) : f \in {"extract_year", "extract_month", "extract_day", "extract_hour", "extract_minute", "extract_second"}}
+LinesOne == {KV(A, IntV(1))}
+
 \* a small menu for interrupt / incremental / file-split exploration
 CoreMenu == {PlainKV, Sel(<<P(K, "")>>, NoE, TRUE, NoLimit, "none"), Star(VPos, FALSE, NoLimit, "none"),
              Agg(<<KeyK, CountStar, SumV>>, <<K>>, NoE, NoH, FALSE, NoLimit, "none"),
